@@ -131,6 +131,13 @@ def collStep (o : OSt) (op : List String) (exts : List (List String)) : OSt × O
     | sd :: _ =>
       let s' := drainOne o.s
       ({ o with s := s' }, some s!"{sd.trace} {fwdList (s'.out.drop o.s.out.length)}")
+  | ["flush"] =>
+    if o.s.toSend.isEmpty then (o, some "empty")
+    else
+      let (s', parts) := o.s.toSend.foldl (fun (acc : St × List String) sd =>
+        let s1 := drainOne acc.1
+        (s1, acc.2 ++ [s!"{sd.trace} {fwdList (s1.out.drop acc.1.out.length)}"])) (o.s, [])
+      ({ o with s := s' }, some (";".intercalate parts))
   | ["reload", g, d] =>
     match g.toNat? with
     | some g => ({ o with s := reloadCfg o.s g (d == "1") }, none)
@@ -272,6 +279,12 @@ def collMon (m : MSt) (op : List String) (_ : List (List String)) (obs : Option 
     match o.splitOn " " with
     | [t, l] => onForwards m "drain" t.toNat? l
     | _ => (m, [])
+  | ["flush"], some o =>
+    if o == "empty" then (m, []) else
+    (o.splitOn ";").foldl (fun (acc : MSt × List Fail) part =>
+      match part.splitOn " " with
+      | [t, l] => let (m', fs) := onForwards acc.1 "drain" t.toNat? l; (m', acc.2 ++ fs)
+      | _ => acc) (m, [])
   | ["reload", _, d], _ =>
     let dry := d == "1"
     ({ m with dry := dry, everDry := m.everDry || dry, everWet := m.everWet || !dry }, [])
